@@ -194,6 +194,7 @@ def run(ck: Check, prog: Program) -> None:
         ck.finding('CTOR-PRECEDENCE', _ci.qualname + '.__init__', _c, _ci.module.rel, _l, _m)
     # ---- REGISTRY + FWD-PARAM ------------------------------------------------------------------
     _registry(ck, prog)
+    _pure_observers(ck, prog)
     _fwd_param(ck, prog, 'error_cls')
     _encoder(ck, prog)
 
@@ -287,7 +288,55 @@ def _batch_forms(ck: Check, prog: Program, ci: ClassInfo, elem: str) -> None:
                    f'{ci.name}.extend must append the given elements, in order, to the list that to_json serialises')
 
 
+def _registry_container(ck: Check, prog: Program) -> None:
+    """REGISTRY: the code -> class table keeps what was registered: it is a plain dict (a weak-value / bounded / expiring mapping forgets
+    classes nobody else references, and the error then deserialises to the base class)."""
+    meta = prog.cls(EXC + '.JsonRpcErrorMeta')
+    val = meta.attrs.get('__errors_mapping__')
+    from ..flow import Flow
+    ok = val is not None and (isinstance(val, ast.Dict) and not val.keys or isinstance(val, ast.Call) and dotted(val.func) == 'dict' and not val.args and not val.keywords)
+    shown = norm(val) if val is not None else '<missing>'
+    if val is not None and isinstance(val, ast.Name):
+        ent = prog.module_attr(meta.module, val.id)
+        if isinstance(ent, tuple) and len(ent) == 3 and isinstance(ent[2], ast.AST):
+            v2 = ent[2]
+            ok = isinstance(v2, ast.Dict) and not v2.keys or isinstance(v2, ast.Call) and dotted(v2.func) == 'dict' and not v2.args and not v2.keywords
+            shown = norm(v2)
+    ck.ob('REGISTRY', 'the code → class table is a plain dict', ok, sample={'table': shown})
+    if not ok:
+        ck.finding('REGISTRY', meta.qualname, f'registry table is `{shown[:50]}`', meta.module.rel, meta.node.lineno,
+                   f'the error-class registry is `{shown}`, not a plain dict: entries can disappear (weak references, eviction), after which a '
+                   f'response carrying that code deserialises to the supplied base class and a typed `except` clause no longer matches')
+
+
+def _pure_observers(ck: Check, prog: Program) -> None:
+    """SENT-TRUTH / wire stability: looking at a message does not change it — comparison, length, iteration, indexing, repr/str,
+    properties and to_json of the message classes write nothing (effect analysis of each observer's call tree), so serialising
+    again gives the identical wire form."""
+    from ..effects import Effects
+    observers = ('__eq__', '__ne__', '__hash__', '__len__', '__iter__', '__getitem__', '__contains__', '__repr__', '__str__', '__bool__', 'to_json')
+    n = 0
+    for ci in prog.classes.values():
+        if ci.module.name not in (V20, EXC) or ci.name.startswith('_'):
+            continue
+        roots = [m for m in ci.methods.values() if m.name in observers or m.kind == 'property']
+        if not roots:
+            continue
+        eff = Effects(prog, roots, [ci])
+        # parameters typed as the message classes (the `other` of __eq__) are long-lived state too
+        ws = [w for w in eff.shared_writes() if w.target.split(':')[0] in ('self', 'param', 'class', 'module')]
+        ws = [w for w in ws if w.func.name not in ('__init__', '__new__')]
+        n += len(roots)
+        ck.ob('PURE-OBSERVE', f'{ci.name}: {len(roots)} observers (comparison, iteration, repr, properties, to_json) write no message state', not ws)
+        for w in ws:
+            ck.finding('PURE-OBSERVE', w.func.qualname, f'{w.why} on {w.target.split(":")[0]} state: {w.text[:50]}', w.func.module.rel, w.line,
+                       f'`{w.text}` modifies the message ({w.target}) while it is only being looked at: element order / content after a '
+                       f'comparison or a serialisation differs from what was received, so serialising again gives another wire form')
+    ck.require('PURE-OBSERVE', 'observer methods of the message model', n, 30)
+
+
 def _registry(ck: Check, prog: Program) -> None:
+    _registry_container(ck, prog)
     fj = prog.func(EXC + '.JsonRpcError.from_json')
     members = _member_vars(CFG(fj, prog), fj)
     code_var = members.get('code', ('', None))[0]
@@ -463,6 +512,13 @@ def _encoder(ck: Check, prog: Program) -> None:
 
 
 MUTANTS = [
+    dict(name='registry-holds-classes-weakly', file='pjrpc/common/exceptions.py',
+         find="    __errors_mapping__: Dict[int, Type['JsonRpcError']] = {}", replace="    __errors_mapping__: Dict[int, Type['JsonRpcError']] = weakref.WeakValueDictionary()",
+         also=[dict(file='pjrpc/common/exceptions.py', find='import typing\n', replace='import typing\nimport weakref\n')], expect='REGISTRY'),
+    dict(name='comparison-sorts-the-batch-in-place', file='pjrpc/common/v20.py', nth=0,
+         find='        if not isinstance(other, BatchResponse):\n            return NotImplemented\n',
+         replace='        if not isinstance(other, BatchResponse):\n            return NotImplemented\n        self._responses.sort(key=op.attrgetter("id"))\n',
+         expect='PURE-OBSERVE'),
     dict(name='empty-batch-response-rejected', file='pjrpc/common/v20.py',
          find='            if not isinstance(json_data, (list, tuple)):\n                raise DeserializationError("data must be of type list")\n',
          replace='            if not isinstance(json_data, (list, tuple)):\n                raise DeserializationError("data must be of type list")\n'
